@@ -207,7 +207,7 @@ def build(tier, seed, known):
     for fi, fc in enumerate(FIRSTS if tier == "thorough" else "@→(" + chr(92)):
         add("raw_len2_first%d" % fi, "raw", "c: str", ["len(c) == 1", "c in CP or c in ADV"], ["try:", "    out = transpile_det(%r + c)" % fc, "except Exception:", "    return note('transpile raised')", "return names_from_vocabulary(out)"], 600,
             "all two-character programs starting with %r" % fc, "second character in the code page or the adversarial set (realisation-exhausted)")
-    src += "NAMECH = '^$%+-.*!?=<>~' + 'aZ_9' + chr(10) + chr(13) + chr(0x2028) + chr(34) + chr(39)\nREF_rawcall = transpile_det('@aa;')\nREF_rawdef = transpile_det('@aa|+;')\n"
+    src += "NAMECH = '^$%+-.*!?=<>~' + 'aZ_9' + chr(10) + chr(13) + chr(0x2028) + chr(34)\nREF_rawcall = transpile_det('@aa;')\nREF_rawdef = transpile_det('@aa|+;')\n"
     add("raw_fn_call_name2", "raw", "c: str, d: str", ["len(c) == 1", "len(d) == 1", "c in NAMECH", "d in NAMECH"],
         ["try:", "    out = transpile_det('@' + c + d + ';')", "except Exception:", "    return note('transpile raised')", "return ast_confirm(out, REF_rawcall) or explain('function-call name characters changed the code shape')"], 600,
         "whole programs @cd; : AST and token sequence equal to those of @aa; with VAR_ tails blanked", "both name characters over operators, quotes, line breaks and identifier characters (realisation-exhausted)")
